@@ -1,0 +1,17 @@
+//go:build verif
+
+// Machine-checked contracts for govc (see /verif/DESIGN.md). Comments only;
+// compiled only with the build tag "verif".
+
+package service
+
+// C01 (HTTP entry points, decision and proxy): the request context is finalized (positive answer
+// possible) only if rule execution returned no error; every error goes to the error handler (C12:
+// non-success status), and a finalize error too.
+//@ func (*handler).ServeHTTP
+//@   props C01
+//@   ensures exec.n == old(exec.n) + 1
+//@   ensures exec.ret1[old(exec.n)] != nil ==> fin.n == old(fin.n) && herr.n == old(herr.n) + 1 && herr.arg3[old(herr.n)] == exec.ret1[old(exec.n)] && herr.arg1[old(herr.n)] == rw
+//@   ensures exec.ret1[old(exec.n)] == nil ==> fin.n == old(fin.n) + 1 && fin.arg0[old(fin.n)] == exec.arg1[old(exec.n)]
+//@   ensures exec.ret1[old(exec.n)] == nil && fin.ret0[old(fin.n)] != nil ==> herr.n == old(herr.n) + 1 && herr.arg3[old(herr.n)] == fin.ret0[old(fin.n)] && herr.arg1[old(herr.n)] == rw
+//@   ensures exec.ret1[old(exec.n)] == nil && fin.ret0[old(fin.n)] == nil ==> herr.n == old(herr.n)
